@@ -48,7 +48,8 @@ class VDI(AlignedStream):
 
             if block == UNALLOCATED:
                 if self.parent:
-                    bytes_read.append(self.parent._read(offset, read_len))
+                    # The parent may be smaller than this image, anything beyond its end reads as zeros
+                    bytes_read.append(self.parent._read(offset, read_len).ljust(read_len, b"\x00"))
                 else:
                     bytes_read.append(b"\x00" * read_len)
             elif block == SPARSE:
